@@ -191,6 +191,23 @@ def c05_cases(ctx, bases, rnd):
         for kind, a, z in lay:
             if kind == "endmark":
                 add(bf, [[4, a, z]], "delete-endmark")
+    # a block that expands beyond the declared block size (no checksums to notice): every buffer class must reject it
+    def lenbytes(r):
+        out = []
+        while r >= 255:
+            out.append(255)
+            r -= 255
+        return out + [r]
+    for code, maxb in ((4, 65536), (5, 262144)):
+        for extra in (1, 1000):
+            m = maxb + extra - 1 - 5                   # 1 literal + match + 5 final literals = maxb + extra bytes
+            blk = [0x1F, 65, 1, 0] + lenbytes(m - 4 - 15) + [0x50, 66, 67, 68, 69, 70]
+            hdr = FRAME_MAGIC + [0x60, 16 * code]
+            hc = {4: 0x82, 5: 0xFB}[code]
+            frame = hdr + [hc] + le32(len(blk)) + blk + [0, 0, 0, 0]
+            for cfg in ({"conc": 1, "mode": "read", "bufs": [4 * maxb]}, {"conc": 1, "mode": "read", "bufs": [4096]}, {"conc": 1, "mode": "writeto"},
+                        {"conc": 4, "mode": "read", "bufs": [4 * maxb]}, {"conc": 4, "mode": "writeto"}):
+                cases.append({"id": len(cases) + 1, "chunks": [{"bytes": frame}], "ops": [], "cfg": cfg, "tag": {"base": -1, "mut": "oversize-block"}})
     # splices between two frames of different options
     for _ in range(30 if q else 300):
         x, y = rnd.sample(bases, 2)
